@@ -83,6 +83,11 @@ def _bases(kind, tier):
                     out.append(((64.0, -128.0, z0), (64.0 + 0.8 * rho, -128.0 + 0.6 * rho, z1)))
         if n_q:
             out = out[::3]
+        # a receiver exactly on the internal boundary and exactly on the surface (the same ray must not be listed twice)
+        zb = -200.0 if kind == "layered_uu" else -100.0
+        for z0 in (-50.0, -450.0):
+            for z1 in (zb, 0.0):
+                out.append(((64.0, -128.0, z0), (64.0 + 240.0, -128.0 + 180.0, z1)))
     return out
 
 
